@@ -1,7 +1,425 @@
+/-
+  C15 — blocks and function calls give declarations a local lifetime and safe shadowing;
+        BREAK / CONTINUE / RETURN / EXIT transfer control as documented.
+
+  Property theorems only (the inductions over the fuel live in Csvq/Lemmas/Scope.lean).  Every theorem
+  quantifies over ALL programs (syntax trees of Csvq.Scope.Stmt, including the ones csvq's parser rejects),
+  all block stacks and all fuel.  `…I` functions are the interpreter written in the shape of the Go code
+  (processor.go / reference_scope.go / user_defined_function.go), `…S` the reference semantics.
+
+  What csvq does and the theorems therefore say (see the assumptions in the evidence):
+    * names are resolved dynamically — a function body runs in a child scope of the CALLER's scope;
+    * EXIT inside a function body (the parser forbids it) would only end that function.
+-/
 import Csvq.Lemmas.Scope
 namespace Csvq.C15
 open Csvq Csvq.Scope
 
-theorem placeholder : True := trivial
+/-! ## refinement: the Go-shaped interpreter and the reference semantics agree -/
+
+/-- same PRINT trace, same final block stack, same way of ending — for every program and every fuel -/
+theorem exec_refines (fuel : Nat) (p : List Stmt) : execImpl fuel p = execSpec fuel p := by
+  unfold execImpl execSpec
+  have h := (refInv fuel).block p none St.init
+  rcases hB : blockS fuel p St.init with ⟨o, s⟩
+  rw [hB] at h
+  simp only [h.st, h.out]
+
+theorem eval_refines (fuel : Nat) (e : Expr) (st : St) : evalI fuel e st = evalS fuel e st :=
+  (refInv fuel).eval e st
+
+theorem call_refines (fuel : Nat) (d : FDecl) (args : List SVal) (st : St) :
+    callI fuel d args st = callS fuel d args st :=
+  (refInv fuel).call d args st
+
+/-- one statement: same session afterwards, and (flow, err, returnVal) read as one outcome is the spec's outcome -/
+theorem stmt_refines (fuel : Nat) (s : Stmt) (rv : Option SVal) (st : St) :
+    (stmtI fuel s rv st).st = (stmtS fuel s st).2 ∧ (stmtI fuel s rv st).outcome = (stmtS fuel s st).1 :=
+  ⟨((refInv fuel).stmt s rv st).st, ((refInv fuel).stmt s rv st).out⟩
+
+theorem execute_refines (fuel : Nat) (ss : List Stmt) (rv : Option SVal) (st : St) :
+    (executeI fuel ss rv st).st = (blockS fuel ss st).2 ∧ (executeI fuel ss rv st).outcome = (blockS fuel ss st).1 :=
+  ⟨((refInv fuel).block ss rv st).st, ((refInv fuel).block ss rv st).out⟩
+
+/-- the processor's `returnVal` field is set exactly by a RETURN that is being unwound -/
+theorem returnVal_discipline (fuel : Nat) (s : Stmt) (rv : Option SVal) (st : St)
+    (he : (stmtI fuel s rv st).err = none) :
+    ((stmtI fuel s rv st).flow ≠ .ret → (stmtI fuel s rv st).rv = rv) ∧
+    ((stmtI fuel s rv st).flow = .ret → (stmtI fuel s rv st).rv ≠ none) ∧
+    (stmtI fuel s rv st).flow ≠ .terminateWithError :=
+  let h := ((refInv fuel).stmt s rv st).rvok
+  ⟨h.keep he, h.set he, h.twe he⟩
+
+/-! ## the block stack is balanced: every CreateChild is matched by one CloseCurrentBlock, on every path -/
+
+theorem block_stack_balanced (fuel : Nat) (s : Stmt) (rv : Option SVal) (st : St) :
+    (stmtI fuel s rv st).st.blocks.length = st.blocks.length := by
+  rw [(stmt_refines fuel s rv st).1]
+  exact (lenInv fuel).stmt s st
+
+theorem block_stack_balanced_list (fuel : Nat) (ss : List Stmt) (rv : Option SVal) (st : St) :
+    (executeI fuel ss rv st).st.blocks.length = st.blocks.length := by
+  rw [(execute_refines fuel ss rv st).1]
+  exact (lenInv fuel).block ss st
+
+theorem block_stack_balanced_eval (fuel : Nat) (e : Expr) (st : St) :
+    (evalI fuel e st).2.blocks.length = st.blocks.length := by
+  rw [eval_refines]
+  exact (lenInv fuel).eval e st
+
+/-- a whole procedure ends with exactly the one global block it started with, however it ends -/
+theorem block_stack_balanced_program (fuel : Nat) (p : List Stmt) : (execImpl fuel p).globals.length = 1 := by
+  unfold execImpl St.obs
+  simp only [List.length_map]
+  exact block_stack_balanced_list fuel p none St.init
+
+/-! ## declarations are local -/
+
+/-- IF: block by block, the stack after the statement declares no name (variable or function) it did not declare before -/
+theorem decl_local_if_blockwise (fuel : Nat) (br : List (Expr × List Stmt)) (els : List Stmt) (rv : Option SVal) (st : St) :
+    StackLE (stmtI fuel (.ifs br els) rv st).st.blocks st.blocks := by
+  rw [(stmt_refines fuel _ rv st).1]
+  cases fuel with
+  | zero => simp only [stmtS]; exact StackLE.refl _
+  | succ f => simp only [stmtS]; exact (leInv f).ifs br els st
+
+theorem decl_local_while_blockwise (fuel : Nat) (c : Expr) (body : List Stmt) (rv : Option SVal) (st : St) :
+    StackLE (stmtI fuel (.while c body) rv st).st.blocks st.blocks := by
+  rw [(stmt_refines fuel _ rv st).1]
+  cases fuel with
+  | zero => simp only [stmtS]; exact StackLE.refl _
+  | succ f => simp only [stmtS]; exact (leInv f).whl c body st
+
+/-- evaluating an expression — in particular calling functions, to any depth — leaves no declaration behind -/
+theorem decl_local_call_blockwise (fuel : Nat) (e : Expr) (st : St) :
+    StackLE (evalI fuel e st).2.blocks st.blocks := by
+  rw [eval_refines]
+  exact (leInv fuel).eval e st
+
+/-- a variable that is not visible before an IF statement is not visible after it (whatever its blocks declared) -/
+theorem decl_local (fuel : Nat) (br : List (Expr × List Stmt)) (els : List Stmt) (rv : Option SVal) (st : St) (x : Nat)
+    (h : getVar x st.blocks = none) : getVar x (stmtI fuel (.ifs br els) rv st).st.blocks = none := by
+  have := StackLE.getVar (x := x) (decl_local_if_blockwise fuel br els rv st)
+  cases hg : getVar x (stmtI fuel (.ifs br els) rv st).st.blocks with
+  | none => rfl
+  | some v => simp [hg, h] at this
+
+theorem decl_local_while (fuel : Nat) (c : Expr) (body : List Stmt) (rv : Option SVal) (st : St) (x : Nat)
+    (h : getVar x st.blocks = none) : getVar x (stmtI fuel (.while c body) rv st).st.blocks = none := by
+  have := StackLE.getVar (x := x) (decl_local_while_blockwise fuel c body rv st)
+  cases hg : getVar x (stmtI fuel (.while c body) rv st).st.blocks with
+  | none => rfl
+  | some v => simp [hg, h] at this
+
+theorem decl_local_call (fuel : Nat) (e : Expr) (st : St) (x : Nat)
+    (h : getVar x st.blocks = none) : getVar x (evalI fuel e st).2.blocks = none := by
+  have := StackLE.getVar (x := x) (decl_local_call_blockwise fuel e st)
+  cases hg : getVar x (evalI fuel e st).2.blocks with
+  | none => rfl
+  | some v => simp [hg, h] at this
+
+/-- the same for functions declared inside blocks and function bodies -/
+theorem decl_local_function (fuel : Nat) (br : List (Expr × List Stmt)) (els : List Stmt) (rv : Option SVal) (st : St) (f : Nat)
+    (h : (getFn f st.blocks).isSome = false) : (getFn f (stmtI fuel (.ifs br els) rv st).st.blocks).isSome = false := by
+  have := StackLE.getFn (x := f) (decl_local_if_blockwise fuel br els rv st)
+  cases hg : (getFn f (stmtI fuel (.ifs br els) rv st).st.blocks).isSome with
+  | false => rfl
+  | true => simp [hg, h] at this
+
+/-- any statement: only the CURRENT block can gain names; all enclosing blocks keep or lose theirs -/
+theorem decl_only_in_current_block (fuel : Nat) (s : Stmt) (rv : Option SVal) (st : St) :
+    StackLE (stmtI fuel s rv st).st.blocks.tail st.blocks.tail := by
+  rw [(stmt_refines fuel s rv st).1]
+  exact (leInv fuel).stmt s st
+
+/-- an empty block anywhere below the current one is transparent (this is why WHILE may evaluate its
+    condition in the freshly cleared child scope) -/
+theorem empty_block_transparent (fuel n : Nat) (s : Stmt) (st : St) (h : st.blocks ≠ []) :
+    stmtS fuel s (st.ins (n + 1)) = ((stmtS fuel s st).1, (stmtS fuel s st).2.ins (n + 1)) :=
+  (insInv fuel).stmt n s st h
+
+/-! ## shadowing and assignment -/
+
+/-- an assignment to a name the current block declares changes the current block only -/
+theorem assign_hits_innermost (x : Nat) (v : SVal) (b : Block) (rest : List Block) (h : (aget x b.vars).isSome) :
+    setVar x v (b :: rest) = some ({ b with vars := aset x v b.vars } :: rest) :=
+  setVar_current v rest h
+
+/-- an assignment changes the value of the assigned name and of no other name -/
+theorem assign_sets_only_that_name (x y : Nat) (v : SVal) (bs bs' : List Block) (h : setVar x v bs = some bs') :
+    getVar x bs' = some v ∧ (y ≠ x → getVar y bs' = getVar y bs) :=
+  ⟨getVar_setVar_same h, fun hy => getVar_setVar_other hy h⟩
+
+/-- at every nesting depth `n`: a block that declares `@x` and assigns it `n` blocks further in leaves the
+    whole outer stack exactly as it was — an outer `@x` keeps its value -/
+theorem shadow_preserves_outer (x : Nat) (v1 v2 : SVal) (n k : Nat) (rv : Option SVal) (st : St) (hne : st.blocks ≠ []) :
+    let prog := [Stmt.ifs [(.lit (.tern .T), .decl x (.lit v1) :: nest n [.assign x (.lit v2)])] []]
+    let r := executeI (k + 3 * n + 7) prog rv st
+    r.outcome = .normal ∧ r.st = st := by
+  intro prog r
+  have hr := execute_refines (k + 3 * n + 7) prog rv st
+  suffices h : blockS (k + 3 * n + 7) prog st = (.normal, st) by
+    rw [h] at hr
+    exact ⟨hr.2, hr.1⟩
+  obtain ⟨blocks, out⟩ := st
+  have e : k + 3 * n + 7 = (k + 3 * n + 3) + 1 + 1 + 1 + 1 := by omega
+  rw [e]
+  simp only [prog, blockS, stmtS, ifS]
+  have e2 : k + 3 * n + 3 = (k + 3 * n + 2) + 1 := by omega
+  rw [e2]
+  simp only [evalS, SVal.ternary, inBlock, St.push, declareVar, aget_empty_vars]
+  have hs : setVar x v2 ({ vars := [(x, v1)], funs := [] } :: blocks) = some ({ vars := [(x, v2)], funs := [] } :: blocks) := by
+    simp [setVar, aget, aset]
+  have := nest_assign x v2 n k ⟨{ vars := [(x, v1)], funs := [] } :: blocks, out⟩ _ hs
+  rw [e2] at this
+  simp only [Block.empty] at this ⊢
+  rw [this]
+  simp [St.pop]
+
+/-- at every nesting depth `n`: an assignment to a visible outer variable made `n` blocks further in persists,
+    and no other variable changes -/
+theorem outer_assign_persists (x : Nat) (v w : SVal) (n k : Nat) (rv : Option SVal) (st : St)
+    (hvis : getVar x st.blocks = some w) :
+    let r := executeI (k + 3 * n + 3) (nest n [.assign x (.lit v)]) rv st
+    r.outcome = .normal ∧ getVar x r.st.blocks = some v ∧ (∀ y, y ≠ x → getVar y r.st.blocks = getVar y st.blocks) ∧
+      r.st.out = st.out := by
+  intro r
+  obtain ⟨bs', hbs⟩ := setVar_of_getVar v hvis
+  have hr := execute_refines (k + 3 * n + 3) (nest n [.assign x (.lit v)]) rv st
+  rw [nest_assign x v n k st bs' hbs] at hr
+  refine ⟨hr.2, ?_, ?_, ?_⟩
+  · show getVar x r.st.blocks = some v
+    rw [hr.1]; exact getVar_setVar_same hbs
+  · intro y hy
+    show getVar y r.st.blocks = _
+    rw [hr.1]; exact getVar_setVar_other hy hbs
+  · show r.st.out = _
+    rw [hr.1]
+
+/-! ## call frames -/
+
+/-- a call leaves the caller's stack as deep as it was and, block by block, without any new name:
+    parameters and locals of the callee (and of everything it called) are gone -/
+theorem call_frames_independent (fuel : Nat) (d : FDecl) (args : List SVal) (st : St) :
+    (callI fuel d args st).2.blocks.length = st.blocks.length ∧ StackLE (callI fuel d args st).2.blocks st.blocks := by
+  rw [call_refines]
+  exact ⟨(lenInv fuel).call d args st, (leInv fuel).call d args st⟩
+
+/-- arguments are bound in the new frame only: whatever the names of the parameters, the caller's blocks
+    are untouched by the binding (also when it fails half-way) -/
+theorem params_bound_in_fresh_frame : ∀ (fuel : Nat) (ps : List Param) (args : List SVal) (b : Block) (bs : List Block)
+    (out : List SVal), ps.length ≤ args.length →
+    (bindParamsI fuel ps args ⟨b :: bs, out⟩).2.blocks.tail = bs ∧ (bindParamsI fuel ps args ⟨b :: bs, out⟩).2.out = out
+  | 0, _, _, _, _, _, _ => by simp [bindParamsI]
+  | f + 1, [], _, _, _, _, _ => by simp [bindParamsI]
+  | f + 1, p :: ps, [], _, _, _, h => by simp at h
+  | f + 1, p :: ps, a :: as, b, bs, out, h => by
+    simp only [bindParamsI, declareVar]
+    cases aget p.name b.vars with
+    | some _ => simp
+    | none =>
+      simp only []
+      exact params_bound_in_fresh_frame f ps as _ bs out (by simpa using h)
+
+/-- a parameter named like a variable of the caller is a different variable: the callee assigns its own -/
+theorem callee_param_does_not_alias_caller (x : Nat) (a w : SVal) (k : Nat) (st : St) :
+    callI (k + 5) ⟨[⟨x, none⟩], [.assign x (.lit w), .ret (.var x)]⟩ [a] st = (.ok w, st) := by
+  obtain ⟨blocks, out⟩ := st
+  simp [callI, bindParamsI, executeI, stmtI, evalI, checkArgsLen, numDefaults, St.push, St.pop,
+    declareVar, setVar, getVar, aget, aset, PRes.ok, Block.empty]
+
+/-! ## control transfer -/
+
+/-- Processor.execute: an error or any flow other than Terminate ends the statement list at that statement -/
+theorem nonterminate_skips_rest (fuel : Nat) (s : Stmt) (rest : List Stmt) (rv : Option SVal) (st : St)
+    (h : (stmtI fuel s rv st).err ≠ none ∨ (stmtI fuel s rv st).flow ≠ .terminate) :
+    executeI (fuel + 1) (s :: rest) rv st = stmtI fuel s rv st := by
+  simp only [executeI]
+  cases he : (stmtI fuel s rv st).err with
+  | some e => rfl
+  | none =>
+    cases hf : (stmtI fuel s rv st).flow <;> simp_all
+
+/-- BREAK: the innermost WHILE ends normally — no further condition, no further iteration — with the state the
+    body left (its block is closed by the caller) -/
+theorem break_exits_innermost_loop (fuel : Nat) (c : Expr) (body : List Stmt) (rv crv : Option SVal) (st st1 : St) (v : SVal)
+    (hc : evalI fuel c st.clearCurrent = (.ok v, st1)) (hT : v.ternary = .T)
+    (he : (executeI fuel body crv st1).err = none) (hf : (executeI fuel body crv st1).flow = .brk) :
+    whileI (fuel + 1) c body rv crv st = PRes.ok rv (executeI fuel body crv st1).st := by
+  simp only [whileI, hc, hT, he, hf]
+
+/-- CONTINUE: the rest of the body is skipped (nonterminate_skips_rest) and the loop goes on with the next
+    iteration: block cleared, condition evaluated again -/
+theorem continue_starts_next_iteration (fuel : Nat) (c : Expr) (body : List Stmt) (rv crv : Option SVal) (st st1 : St) (v : SVal)
+    (hc : evalI fuel c st.clearCurrent = (.ok v, st1)) (hT : v.ternary = .T)
+    (he : (executeI fuel body crv st1).err = none) (hf : (executeI fuel body crv st1).flow = .cont) :
+    whileI (fuel + 1) c body rv crv st =
+      whileI fuel c body rv (executeI fuel body crv st1).rv (executeI fuel body crv st1).st := by
+  simp only [whileI, hc, hT, he, hf]
+
+/-- RETURN inside a loop ends the loop at once and hands the value to the enclosing processor -/
+theorem return_leaves_loop (fuel : Nat) (c : Expr) (body : List Stmt) (rv crv : Option SVal) (st st1 : St) (v : SVal)
+    (hc : evalI fuel c st.clearCurrent = (.ok v, st1)) (hT : v.ternary = .T)
+    (he : (executeI fuel body crv st1).err = none) (hf : (executeI fuel body crv st1).flow = .ret) :
+    whileI (fuel + 1) c body rv crv st =
+      ⟨.ret, none, (executeI fuel body crv st1).rv, (executeI fuel body crv st1).st⟩ := by
+  simp only [whileI, hc, hT, he, hf]
+
+/-- EXIT inside a loop ends the loop at once with flow Exit -/
+theorem exit_leaves_loop (fuel : Nat) (c : Expr) (body : List Stmt) (rv crv : Option SVal) (st st1 : St) (v : SVal)
+    (hc : evalI fuel c st.clearCurrent = (.ok v, st1)) (hT : v.ternary = .T)
+    (he : (executeI fuel body crv st1).err = none) (hf : (executeI fuel body crv st1).flow = .exit) :
+    whileI (fuel + 1) c body rv crv st = ⟨.exit, none, rv, (executeI fuel body crv st1).st⟩ := by
+  simp only [whileI, hc, hT, he, hf]
+
+/-- IF hands on whatever flow and error the chosen branch produced (so BREAK, CONTINUE, RETURN and EXIT inside
+    an IF act on the enclosing loop / function / procedure) -/
+theorem if_passes_flow_on (fuel : Nat) (c : Expr) (body : List Stmt) (more : List (Expr × List Stmt)) (els : List Stmt)
+    (rv : Option SVal) (st st1 : St) (v : SVal)
+    (hc : evalI fuel c st = (.ok v, st1)) (hT : v.ternary = .T) :
+    (ifI (fuel + 1) ((c, body) :: more) els rv st).flow = (executeI fuel body none st1.push).flow ∧
+    (ifI (fuel + 1) ((c, body) :: more) els rv st).err = (executeI fuel body none st1.push).err := by
+  simp only [ifI, hc, hT, and_self]
+
+/-- for ALL programs: neither BREAK nor CONTINUE ever gets past the innermost enclosing WHILE statement -/
+theorem while_catches_break_continue (fuel : Nat) (c : Expr) (body : List Stmt) (rv : Option SVal) (st : St) :
+    (stmtI fuel (.while c body) rv st).outcome ≠ .brk ∧ (stmtI fuel (.while c body) rv st).outcome ≠ .cont := by
+  rw [(stmt_refines fuel _ rv st).2]
+  cases fuel with
+  | zero => simp [stmtS]
+  | succ f => simp only [stmtS]; exact whileS_catches f c body st
+
+/-- RETURN v anywhere in a function body (at any depth of IF / WHILE: the flow is handed outward by
+    nonterminate_skips_rest, if_passes_flow_on, return_leaves_loop) makes the call yield v; the callee's block is dropped -/
+theorem return_yields_call_value (fuel : Nat) (d : FDecl) (args : List SVal) (st s1 s2 : St) (v : SVal)
+    (hchk : checkArgsLen d args.length = true)
+    (hb : bindParamsS fuel d.params args st.push = (none, s1)) (hr : blockS fuel d.body s1 = (.ret v, s2)) :
+    callI (fuel + 1) d args st = (.ok v, s2.pop) := by
+  rw [call_refines]
+  simp only [callS, inBlock, hchk, if_true, hb, hr]
+
+/-- a body that ends without RETURN (normally, or — in syntax trees the parser rejects — by BREAK / CONTINUE / EXIT)
+    makes the call yield NULL: no flow of the callee reaches the caller -/
+theorem no_return_yields_null (fuel : Nat) (d : FDecl) (args : List SVal) (st s1 s2 : St) (o : Outcome)
+    (hchk : checkArgsLen d args.length = true)
+    (hb : bindParamsS fuel d.params args st.push = (none, s1)) (hr : blockS fuel d.body s1 = (o, s2))
+    (hnr : ∀ v, o ≠ .ret v) (hne : ∀ e, o ≠ .err e) :
+    callI (fuel + 1) d args st = (.ok .null, s2.pop) := by
+  rw [call_refines]
+  simp only [callS, inBlock, hchk, if_true, hb, hr]
+
+/-- EXIT terminates everything around it: the statement list it is in, every enclosing IF and WHILE; the
+    procedure ends with flow Exit -/
+theorem exit_terminates_all :
+    (∀ fuel rest rv st, executeI (fuel + 2) (.exit :: rest) rv st = ⟨.exit, none, rv, st⟩) ∧
+    (∀ fuel s rest st st1, stmtS fuel s st = (.exit, st1) → blockS (fuel + 1) (s :: rest) st = (.exit, st1)) ∧
+    (∀ fuel c body more els st st1 st2 v, evalS fuel c st = (.ok v, st1) → v.ternary = .T →
+      inBlock (blockS fuel body) st1 = (.exit, st2) → ifS (fuel + 1) ((c, body) :: more) els st = (.exit, st2)) ∧
+    (∀ fuel c body st st1 st2 v, evalS fuel c st = (.ok v, st1) → v.ternary = .T →
+      inBlock (blockS fuel body) st1 = (.exit, st2) → whileS (fuel + 1) c body st = (.exit, st2)) ∧
+    (∀ fuel p s, blockS fuel p St.init = (.exit, s) → (execImpl fuel p).flow = .exit) := by
+  refine ⟨?_, ?_, ?_, ?_, ?_⟩
+  · intro fuel rest rv st
+    simp [executeI, stmtI]
+  · intro fuel s rest st st1 h
+    simp only [blockS, h]
+  · intro fuel c body more els st st1 st2 v hc hT hb
+    simp only [ifS, hc, hT, hb]
+  · intro fuel c body st st1 st2 v hc hT hb
+    simp only [whileS, hc, hT, hb]
+  · intro fuel p s h
+    rw [exec_refines]
+    simp [execSpec, h, St.obs]
+
+/-! ## non-vacuity: concrete procedures (variables @v0…, functions fn0…), run by `decide` -/
+
+private def i (n : Int) : Expr := .lit (.int n)
+private def tt : Expr := .lit (.tern .T)
+
+/-- VAR @v0 := 1; IF TRUE THEN VAR @v1 := 2; PRINT @v1; END IF; PRINT @v0; PRINT @v1;
+    — the inner variable is gone after the block: 2, 1, then "undeclared variable" -/
+example : execImpl 50 [.decl 0 (i 1), .ifs [(tt, [.decl 1 (i 2), .print (.var 1)])] [], .print (.var 0), .print (.var 1)]
+    = ⟨[.int 2, .int 1], .err .undeclaredVar, [[(0, .int 1)]]⟩ := by decide
+
+/-- shadowing: the inner @v0 takes the assignment, the outer @v0 is unchanged; an outer @v1 assigned inside persists -/
+example : execImpl 50 [.decl 0 (i 1), .decl 1 (i 5),
+      .ifs [(tt, [.decl 0 (i 2), .assign 0 (.bin .add (.var 0) (i 10)), .assign 1 (.var 0), .print (.var 0)])] [],
+      .print (.var 0), .print (.var 1)]
+    = ⟨[.int 12, .int 1, .int 12], .normal, [[(1, .int 12), (0, .int 1)]]⟩ := by decide
+
+/-- redeclaration in the same block is an error, in an inner block it is not -/
+example : (execImpl 50 [.decl 0 (i 1), .decl 0 (i 2)]).flow = .err .redeclaredVar := by decide
+example : (execImpl 50 [.decl 0 (i 1), .ifs [(tt, [.decl 0 (i 2)])] []]).flow = .normal := by decide
+
+/-- csvq is dynamically scoped: fn0 reads and assigns the @v0 visible at the call site.
+    VAR @v0 := 1; DECLARE fn0 FUNCTION (@v1) AS BEGIN PRINT @v0; @v0 := @v0 + @v1; RETURN @v0; END;
+    PRINT fn0(10); IF TRUE THEN VAR @v0 := 100; PRINT fn0(1); PRINT @v0; END IF; PRINT @v0; -/
+example : execImpl 100 [.decl 0 (i 1),
+      .declFn 0 [⟨1, none⟩] [.print (.var 0), .assign 0 (.bin .add (.var 0) (.var 1)), .ret (.var 0)],
+      .print (.call 0 [i 10]),
+      .ifs [(tt, [.decl 0 (i 100), .print (.call 0 [i 1]), .print (.var 0)])] [],
+      .print (.var 0)]
+    = ⟨[.int 1, .int 11, .int 100, .int 101, .int 101, .int 11], .normal, [[(0, .int 11)]]⟩ := by decide
+
+/-- recursion: every invocation has its own parameter @v1 and local @v2.
+    DECLARE fn0 FUNCTION (@v1) AS BEGIN IF @v1 < 1 THEN RETURN 0; END IF; VAR @v2 := @v1;
+      VAR @v3 := fn0(@v1 - 1); RETURN @v2 + @v3; END;  PRINT fn0(4);   — 4+3+2+1 -/
+example : execImpl 200 [
+      .declFn 0 [⟨1, none⟩] [.ifs [(.bin .lt (.var 1) (i 1), [.ret (i 0)])] [], .decl 2 (.var 1),
+        .decl 3 (.call 0 [.bin .sub (.var 1) (i 1)]), .ret (.bin .add (.var 2) (.var 3))],
+      .print (.call 0 [i 4]), .print (.var 1)]
+    = ⟨[.int 10], .err .undeclaredVar, [[]]⟩ := by decide
+
+/-- optional parameters and argument counts -/
+example : (execImpl 100 [.declFn 0 [⟨1, none⟩, ⟨2, some (.bin .add (.var 1) (i 1))⟩] [.ret (.bin .add (.var 1) (.var 2))],
+      .print (.call 0 [i 5]), .print (.call 0 [i 5, i 7]), .print (.call 0 [])])
+    = ⟨[.int 11, .int 12], .err .argCount, [[]]⟩ := by decide
+
+/-- VAR @v0 := 0; WHILE @v0 < 6 DO @v0 := @v0 + 1; IF @v0 = 2 THEN CONTINUE; END IF;
+      IF @v0 = 4 THEN BREAK; END IF; PRINT @v0; END WHILE; PRINT 9;      — prints 1, 3, 9 -/
+example : execImpl 200 [.decl 0 (i 0),
+      .while (.bin .lt (.var 0) (i 6)) [.assign 0 (.bin .add (.var 0) (i 1)),
+        .ifs [(.bin .eq (.var 0) (i 2), [.cont])] [], .ifs [(.bin .eq (.var 0) (i 4), [.brk])] [], .print (.var 0)],
+      .print (i 9)]
+    = ⟨[.int 1, .int 3, .int 9], .normal, [[(0, .int 4)]]⟩ := by decide
+
+/-- BREAK leaves the innermost loop only: the outer loop goes on (11, then 13) -/
+example : (execImpl 300 [.decl 0 (i 0),
+      .while (.bin .lt (.var 0) (i 2)) [.assign 0 (.bin .add (.var 0) (i 1)), .decl 1 (i 0),
+        .while tt [.assign 1 (.bin .add (.var 1) (i 1)), .ifs [(.bin .eq (.var 1) (i 2), [.brk])] [],
+          .print (.bin .add (.bin .add (.var 0) (.var 0)) (.bin .add (.var 1) (i 8)))]]]).out
+    = [.int 11, .int 13] := by decide
+
+/-- a variable declared in a loop body is fresh in every iteration (the child block is cleared) -/
+example : (execImpl 200 [.decl 0 (i 0),
+      .while (.bin .lt (.var 0) (i 3)) [.assign 0 (.bin .add (.var 0) (i 1)), .decl 1 (.var 0), .print (.var 1)]]).flow
+    = .normal := by decide
+
+/-- EXIT inside IF inside WHILE inside WHILE ends the whole procedure; nothing after it runs -/
+example : execImpl 200 [.decl 0 (i 0),
+      .while tt [.while tt [.assign 0 (.bin .add (.var 0) (i 1)), .print (.var 0),
+        .ifs [(.bin .eq (.var 0) (i 2), [.exit])] []], .print (i 7)],
+      .print (i 8)]
+    = ⟨[.int 1, .int 2], .exit, [[(0, .int 2)]]⟩ := by decide
+
+/-- RETURN from inside a loop inside an IF ends the function; the caller continues -/
+example : (execImpl 200 [
+      .declFn 0 [] [.decl 0 (i 0), .while tt [.assign 0 (.bin .add (.var 0) (i 1)),
+        .ifs [(.bin .eq (.var 0) (i 3), [.ret (.var 0)])] []], .print (i 99)],
+      .print (.call 0 []), .print (i 5)]).out = [.int 3, .int 5] := by decide
+
+/-- a function declared in a block is gone after it -/
+example : (execImpl 100 [.ifs [(tt, [.declFn 0 [] [.ret (i 1)], .print (.call 0 [])])] [], .print (.call 0 [])])
+    = ⟨[.int 1], .err .undeclaredFn, [[]]⟩ := by decide
+
+/-- a NULL left operand skips the right operand (no call, no PRINT inside it) -/
+example : (execImpl 100 [.declFn 0 [] [.print (i 1), .ret (i 1)],
+      .print (.bin .add (.lit .null) (.call 0 [])), .print (.bin .add (.call 0 []) (.lit .null))]).out
+    = [.null, .int 1, .null] := by decide
+
+/-- the hypotheses of the control-transfer theorems are satisfiable (BREAK in the first iteration) -/
+example : ∃ v st1, evalI 10 tt (St.push St.init).clearCurrent = (.ok v, st1) ∧ v.ternary = .T ∧
+    (executeI 10 [.brk] none st1).err = none ∧ (executeI 10 [.brk] none st1).flow = .brk :=
+  ⟨.tern .T, _, rfl, rfl, rfl, rfl⟩
 
 end Csvq.C15
